@@ -28,9 +28,9 @@ DEFAULT_FUNCS = [
     ("predicate", ["is_zero", "is_negative", "is_positive"]),
     ("math", ["abs", "sign", "is_even", "is_odd", "gcd", "lcm"]),
     ("list", ["first", "first_n", "last", "last_n", "rest", "reverse_list", "reverse", "reduce", "prod", "append_all", "for_each",
-              "filter", "flatten"]),
-    ("set", ["union", "intersection", "diff"]),
-    ("core", ["non_zero", "non_empty", "const", "any", "all", "pairs"]),
+              "filter", "flatten", "unique", "map_list"]),
+    ("set", ["union", "intersection", "diff", "symmetric_diff"]),
+    ("core", ["non_zero", "non_empty", "const", "any", "all", "pairs", "chunks"]),
     ("string", ["reverse", "replace", "join", "q", "esc"]),
 ]
 
